@@ -9,8 +9,8 @@ which quick checks report a violation.
 """
 import json, os, subprocess, sys
 
-REPO = "/tmp/mut/repo"
-VERIF = "/tmp/mut/verif"
+REPO = os.environ.get("MUT_ROOT", "/tmp/mut") + "/repo"
+VERIF = os.environ.get("MUT_ROOT", "/tmp/mut") + "/verif"
 L = "src/lib.rs"
 M = [
  dict(id="M01", file=L, props=["C01"], note="over-aligned fast path: drop the `aligned_ptr < start` guard",
